@@ -5,6 +5,7 @@ import (
 	"errors"
 	"io"
 	"os"
+	"syscall"
 	"time"
 
 	"github.com/ErdemOzgen/blackdagger/internal/client"
@@ -262,3 +263,77 @@ func vfAgRun(retry bool) {
 
 func VerifHarness_AG_run()   { vfAgRun(false) }
 func VerifHarness_AG_retry() { vfAgRun(true) }
+
+// C05.escalate: a step process that ignores the stop signal. The real agent.signal
+// (SIGTERM with override, re-send timer, MaxCleanUpTime timer) must not report the stop as
+// complete while the process is still running unless it has been force-killed.
+type vfStubbornExec struct{ idx int }
+
+func (vfStubbornExec) SetStdout(out io.Writer) {}
+func (vfStubbornExec) SetStderr(out io.Writer) {}
+func (e vfStubbornExec) Kill(sig os.Signal) error {
+	s, _ := sig.(syscall.Signal)
+	if s == syscall.SIGKILL {
+		vfEvent("forcekill", e.idx, 0)
+		if vfNative() {
+			close(vfStubbornGate)
+		}
+	} else {
+		vfEvent("kill", e.idx, int(s))
+	}
+	return nil
+}
+
+var vfStubbornGate chan struct{}
+
+func (e vfStubbornExec) Run() error {
+	vfEvent("start", e.idx, 0)
+	if vfNative() {
+		<-vfStubbornGate // natively the process keeps running until the stop has been reported complete (or it is force-killed)
+	} else {
+		vfWaitTurn("complete", e.idx, 0) // ends on its own, whenever the environment lets it
+	}
+	vfEvent("end", e.idx, 0)
+	if vfCount("kill", e.idx) > 0 {
+		return errVfAg
+	}
+	return nil
+}
+
+func VerifHarness_AG_escalate() {
+	_, cl, lg := vfAgSetup()
+	executor.Register("verifstubborn", func(ctx context.Context, step dag.Step) (executor.Executor, error) {
+		return vfStubbornExec{idx: vfAgIndex(step.Name)}, nil
+	})
+	d := vfAgDAG(dag.Step{Name: "s0", ExecutorConfig: dag.ExecutorConfig{Type: "verifstubborn"}})
+	d.HandlerOn = dag.HandlerOn{}
+	vfStubbornGate = make(chan struct{})
+	d.MaxCleanUpTime = time.Minute
+	if vfNative() {
+		d.MaxCleanUpTime = 300 * time.Millisecond
+	}
+	a := New("req-esc", d, lg, vfAgLogDir(), vfAgLogDir()+"/agent.log", cl, vfAgStores{}, &Options{})
+	go func() {
+		vfWaitTurn("stop", 0, 0)
+		if vfCount("start", 0) == 0 || vfCount("end", 0) > 0 {
+			return // the stop only matters while the process is running
+		}
+		vfEvent("stop", 0, 0)
+		a.signal(syscall.SIGTERM, true)
+		ended := vfCount("end", 0) > 0
+		forceKilled := vfCount("forcekill", 0) > 0
+		if !ended && !forceKilled {
+			vfClass("process-ignoring-the-signal-is-never-force-killed")
+		}
+		vfAssert(ended || forceKilled, "C05.escalate/stop-completes-only-after-the-process-ended-or-was-force-killed")
+		vfEvent("signal-returned", 0, 0)
+		if vfNative() && !forceKilled {
+			close(vfStubbornGate)
+		}
+	}()
+	_ = a.Run(context.Background())
+	if vfCount("stop", 0) > 0 {
+		vfAssert(vfCount("kill", 0) >= 1, "C05.escalate/running-process-is-sent-the-stop-signal")
+	}
+	vfReach("end")
+}
